@@ -107,7 +107,10 @@ def id_admissible(idc, antecedent_full, max_pages):
         return False
     if len(m.group(1)) > 18 or len(str(page)) > 18:
         return False   # digit runs no page number can have ("implausibly far" whatever the window)
-    p, first = int(m.group(1)), int(page)
+    try:
+        p, first = int(m.group(1)), int(page)
+    except ValueError:
+        return False   # str.isdigit() accepts digits int() does not ('12²'): no page number to be within
     if p < first or p > first + max_pages or p >= first + HARD_PAGE_LIMIT:
         return False
     return True
